@@ -79,13 +79,14 @@ PROPS = {
         'assumptions': [], 'trusted': [],
     },
     'C05': {
+        'static': static_c15.probes_only('C05', ['same-id-storm', 'terminate-vs-reconnect']),
         'suites': [('w_c05', 300, 12000)],
         'rule': 'w_c05: wire histories of 3 client ids: connect (v3.1/3.1.1/5, Clean Start 0/1, Session Expiry absent/0/1/2/5/30/100/7200/100000/0xFFFFFFFF, also while the id is attached elsewhere), '
                 'subscribe/unsubscribe, publish to online/offline/dead-but-attached sessions, acks via symbolic ids, DISCONNECT with/without new expiry, abrupt close, TerminateSession, '
                 'clock advances just below/above the expiry in play, expire_check; oracle: Session Present iff the statement says so, CONNACK expiry = min(requested, configured), '
                 'resumed sessions get exactly their unacknowledged messages and keep their subscriptions, fresh sessions get nothing, displaced sockets are closed and get nothing afterwards; '
                 'non-trivial = at least one PUBLISH delivered and >= 5 steps',
-        'assumptions': ['simultaneous CONNECTs are serialised by the runner (one step at a time); the locking that makes every interleaving a serialisation is C15'],
+        'assumptions': ['simultaneous CONNECTs are serialised by the wire runner (one step at a time); the locking that makes every interleaving a serialisation is C15; two schedules the wire runner cannot produce are driven by the stress harness as part of this check: same-id-storm (several CONNECTs of one client id at once: one connection per id) and terminate-vs-reconnect (CONNECT during the tear-down of an administratively terminated session)'],
         'trusted': ['harness/wire_runner.go quiescence barrier and independent codec (harness/WIRE.md)'],
     },
     'C12': {
